@@ -53,7 +53,8 @@ Slices == << ESlice(ELit(IntV(1)), ENul("LENGTH")), ESlice(ELit(IntV(0)), ELit(I
              ESlice(ELit(IntV(0)), ELit(IntV(-1))), ESlice(ELit(IntV(1)), ELit(IntV(3))), ESlice(ELit(IntV(2)), ELit(IntV(1))),
              ESlice(ELit(IntV(0)), ELit(IntV(-3))), ESlice(ELit(IntV(3)), ENul("LENGTH")) >>
 Nullary == << ENul("LENGTH"), ENul("KEYS"), ENul("REVERSE"), ENul("UNIQUE"), EFlatten(-1), EFlatten(1), ENul("ANY"), ENul("ALL"),
-              ENul("TO_ENTRIES"), ENul("FROM_ENTRIES"), ENul("NOT"), ERecurse(TRUE) >>
+              ENul("TO_ENTRIES"), ENul("FROM_ENTRIES"), ENul("NOT"), ERecurse(TRUE),
+              ENul("GET_TAG"), ENul("GET_KIND"), ENul("TO_STRING"), ENul("TO_NUMBER"), ENul("PIVOT") >>
 PathSlices == << ETravArr(EPath(A), ECollect(EBin("CREATE_MAP", ELit(IntV(1)), ENul("LENGTH")))), ETravArr(EPath(A), ECollect(EBin("CREATE_MAP", ELit(IntV(0)), ELit(IntV(1))))),
                  ETravArr(EPath(A), ECollect(ELit(IntV(0)))), ETravArr(EPath(B), ECollect(EEmpty)) >>
 Leaf == Paths0 \o Lits \o Slices \o Nullary \o PathSlices
@@ -80,6 +81,14 @@ Special(E) == [i \in DOMAIN E |-> EBin("CONTAINS", ESelf, E[i])]
               \o [i \in DOMAIN E |-> EReduce(E[i], "x", ELit(IntV(0)), EBin("ADD", ESelf, EVar("x")))]
               \o [i \in DOMAIN E |-> EReduce(ESplat, "x", E[i], EBin("ADD", ESelf, EVar("x")))]
               \o [i \in DOMAIN E |-> EReduce(ESplat, "x", ECollect(EEmpty), EBin("ADD", ECollect(EVar("x")), ESelf))]
+              \* setpath / delpaths: the probe as the value, as the path, inside the path
+              \o [i \in DOMAIN E |-> EBin("SET_PATH", ECollect(ELit(StrV(A))), E[i])]
+              \o [i \in DOMAIN E |-> EBin("SET_PATH", ECollect(EUnion(ELit(StrV(B)), ELit(IntV(1)))), E[i])]
+              \o [i \in DOMAIN E |-> EBin("SET_PATH", E[i], ELit(IntV(2)))]
+              \o [i \in DOMAIN E |-> EBin("SET_PATH", ECollect(E[i]), ELit(StrV(A)))]
+              \o [i \in DOMAIN E |-> EUn("DEL_PATHS", ECollect(ECollect(E[i])))]
+              \o [i \in DOMAIN E |-> EUn("DEL_PATHS", ECollect(EUnion(ECollect(ELit(StrV(A))), ECollect(E[i]))))]
+              \o [i \in DOMAIN E |-> EUn("DEL_PATHS", E[i])]
 
 E1 == Leaf \o Un(Leaf) \o Bin(Leaf, Leaf) \o Special(Leaf)
 \* compositions: every operator applied to the output of every operator; binary operators over multi-result operands
